@@ -13,6 +13,7 @@
 #include <vector>
 
 #include "resolvo.h"
+#include "resolvo_pool.h"
 
 using resolvo::Candidates;
 using resolvo::Dependencies;
@@ -454,6 +455,34 @@ extern "C" void shim_containers(void *ctx, const uint32_t *ops, size_t n_ops) {
             if (W[r].size() > W[r].capacity()) {
                 uint32_t bad[3] = {r, static_cast<uint32_t>(W[r].size()), static_cast<uint32_t>(W[r].capacity())};
                 vq_emit(ctx, 991, bad, 3);
+            }
+        }
+    }
+    // resolvo::Pool, the interning helper the binding ships for provider authors: equal values
+    // share an id, ids are dense from 0 and operator[] returns exactly what was interned - for a
+    // value type with a move constructor (std::string, short and beyond the small-string buffer)
+    // and for resolvo::String. Nothing is emitted unless a check fails.
+    {
+        resolvo::Pool<resolvo::NameId, std::string> ps;
+        resolvo::Pool<resolvo::NameId, String> pr;
+        std::vector<std::string> model;
+        for (size_t k = 0; k < n_ops; ++k) {
+            uint32_t x = ops[5 * k + 1] ^ ops[5 * k + 3];
+            std::string v = "value-" + std::to_string(x % 11);
+            if (x % 5 == 0) v += std::string(40, 'y');
+            uint32_t want = static_cast<uint32_t>(std::find(model.begin(), model.end(), v) - model.begin());
+            if (want == model.size()) model.push_back(v);
+            resolvo::NameId a = ps.alloc(v);
+            resolvo::NameId b = pr.alloc(String(std::string_view(v)));
+            if (a.id != want || b.id != want) {
+                uint32_t bad[3] = {want, a.id, b.id};
+                vq_emit(ctx, 992, bad, 3);
+            }
+            for (uint32_t j = 0; j < model.size(); ++j) {
+                if (ps[resolvo::NameId{j}] != model[j] || std::string_view(pr[resolvo::NameId{j}]) != std::string_view(model[j])) {
+                    uint32_t bad[2] = {j, static_cast<uint32_t>(ps[resolvo::NameId{j}].size())};
+                    vq_emit(ctx, 993, bad, 2);
+                }
             }
         }
     }
